@@ -632,7 +632,7 @@ pub fn run(e: &Engine) {
         e.campaign(
             &format!("chain-{b:?}"),
             rule,
-            e.tier.pick(if b == Backend::GitRemote { 16 } else { 32 }, 720),
+            e.tier.pick(if b == Backend::GitRemote { 16 } else { 32 }, 240),
             move || strategy(b, if b == Backend::GitRemote { 9 } else { 12 }),
             |c| serde_json::json!({"backend": format!("{:?}", c.backend), "ops": c.ops.iter().map(|o| match o { SOp::AddVersion { h, parent, payload } => format!("AddVersion(h{h}, {parent:?}, {} bytes)", payload_bytes(payload).len()), other => format!("{other:?}") }).collect::<Vec<_>>()}),
             check_case,
@@ -645,7 +645,7 @@ pub fn run(e: &Engine) {
         e.campaign(
             &format!("replicas-through-{b:?}"),
             "two real replicas run a generated commit/sync history through the backend, then quiesce; both must equal the reference replay of a walk of the backend's chain from the root through a fresh handle; non-trivial = a chain of >= 2 versions",
-            if git { e.tier.pick(12, 360) } else { e.tier.pick(150, 4500) },
+            if git { e.tier.pick(12, 120) } else { e.tier.pick(150, 4500) },
             move || rep_strategy(b, if git { 8 } else { 16 }),
             |c| serde_json::json!({"backend": format!("{:?}", c.backend), "actions": c.actions.iter().map(super::common::render_action).collect::<Vec<_>>()}),
             check_replicas,
